@@ -248,3 +248,61 @@ Definition protocol_strings (c : cfg) : list string :=
 (* what the node reports: its network id and the four strings *)
 Definition agree_protocol (c : cfg) (id : string) (reported : list string) : bool :=
   String.eqb (dec (effective_netid c)) id && ls_eqb (protocol_strings c) reported.
+
+(* ---------------------------------------------------------------- the service's life between installation and upgrade *)
+(* NodeService::on_start(pid, full_refresh = true) rewrites exactly one installable setting of the record: the node
+   port, to the port of the first listener with a UDP component; on_stop, on_start(pid, false) (registry refresh)
+   and the save / reload of the registry rewrite none *)
+Inductive life := LStart (observed_port : N) | LStop | LRefresh.
+Definition life_step (r : cfg) (l : life) : cfg :=
+  match l with LStart p => set_port r (Some p) | LStop | LRefresh => r end.
+Definition after_life (c : cfg) (ls : list life) : cfg := fold_left life_step ls c.
+
+(* ---------------------------------------------------------------- which EVM network the node resolves *)
+Fixpoint env_get (k : string) (env : list (string * string)) : option string :=
+  match env with [] => None | (k', v) :: r => if String.eqb k' k then Some v else env_get k r end.
+
+(* evmlib::utils::get_evm_network_from_env (the `local` test network is not modelled: None) *)
+Definition evm_from_env (env : list (string * string)) : option evm :=
+  let net := env_get "EVM_NETWORK" env in
+  if ostr_eqb net (Some "arbitrum-one") then Some EvmOne
+  else if ostr_eqb net (Some "arbitrum-sepolia") then Some EvmSepolia
+  else match env_get "RPC_URL" env, env_get "PAYMENT_TOKEN_ADDRESS" env, env_get "DATA_PAYMENTS_ADDRESS" env with
+       | Some u, Some t, Some p => Some (EvmCustom u t p)
+       | _, _, _ => None
+       end.
+
+(* EvmNetworkCommand -> EvmNetwork *)
+Definition evm_of_sub (name : string) (its : list item) : option evm :=
+  if String.eqb name "evm-arbitrum-one" then Some EvmOne
+  else if String.eqb name "evm-arbitrum-sepolia" then Some EvmSepolia
+  else if String.eqb name "evm-custom" then
+    match ilookup "--rpc-url" its, ilookup "--payment-token-address" its, ilookup "--data-payments-address" its with
+    | Some (Some u), Some (Some t), Some (Some p) => Some (EvmCustom u t p)
+    | _, _, _ => None
+    end
+  else None.
+
+(* antnode main: opt.evm_network.map(Into::into).unwrap_or_else(get_evm_network_from_env) *)
+Definition resolve_evm (sub : option (string * list item)) (env : list (string * string)) : option evm :=
+  match sub with
+  | Some (name, its) => evm_of_sub name its
+  | None => evm_from_env env
+  end.
+
+Definition evm_report (e : option evm) : string :=
+  match e with
+  | Some (EvmCustom u t p) => "evm-custom " ++ u ++ " " ++ t ++ " " ++ p
+  | Some e => evm_name e
+  | None => "unresolved"
+  end.
+
+(* what the node reports it resolved, given the service environment the manager wrote *)
+Definition agree_evm (c : cfg) (env : option (list (string * string))) (reported : string) : bool :=
+  String.eqb (evm_report (resolve_evm (Some (evm_name (c_evm c), evm_items (c_evm c)))
+                                      (match env with Some l => l | None => [] end))) reported.
+
+(* the record the upgrade reads = the installed options after the service's life *)
+Definition agree_ctxs_life (c : cfg) (env : option (list (string * string))) (ls : list life) (o : uopts)
+           (install upgrade : ictx) : bool :=
+  ctx_eqb (install_ctx c env) install && ctx_eqb (upgrade_ctx (after_life c ls) o) upgrade.
